@@ -110,4 +110,10 @@ CLAIMED['C15'] = dict(
     technique='CrossHair-engine exhaustive enumeration (z3-decided selectors) of to_transposed over documents x 40 intervals x 2 directions against the cell model + letter/semitone pitch model, composed with the C09 SMT lemma',
     design='5 C15')
 
+CLAIMED['C13'] = dict(
+    text=BMC + 'C13: (a) Exporter.export_string is executed with SYMBOLIC spine-id bits (or None), spine-type bits and category bits at once under each of the six encodings, on documents with three spines, a chord, a split with a clef change and a join; the export must equal the cell model rendered under (encoding, category predicate, column predicate) - the three single-option transformations act on independent components of that state, so their composition is order independent by construction; (b) every keyword passed as None or as its documented default equals omitting it, alone and next to one other non-default option, in both call orders; (c) the text exported for a cell is independent of its neighbours for every encoding and four exclusions.',
+    note=NOTE + 'In C13.a six categories vary and the rest are selected (all 2^37 selections per document are C05.a); from/to_measure combinations are C07/C08. One open known finding shared with C10 (natural sign in agnostic encodings).',
+    technique='CrossHair-engine symbolic execution of the exporter with symbolic spine-id / spine-type / category containers x z3-enumerated encodings against a state-based cell model',
+    design='5 C13')
+
 PENDING_REASON = 'check under construction in this session (to be claimed; see DESIGN.md section 5)'
